@@ -233,7 +233,7 @@ pub fn c07(tier: Tier) -> Check {
                     let padding = ((i % 64) * 4) as u8;
                     let mut spec = kind_template((i / 64) as usize);
                     spec.set_padding(padding);
-                    BuildCase { spec, how: How { wrap: i % 3 == 1, fb_owned: i % 2 == 1, single_compound: i % 5 == 4, owned: i % 4 == 3 }, salt: 0 }
+                    BuildCase { spec, how: How { wrap: i % 3 == 1, fb_owned: i % 2 == 1, single_compound: i % 5 == 4, owned: i % 4 == 3, probe: i % 5 == 2 }, salt: 0 }
                 }),
                 oracle: c07_oracle,
                 exhaustive: true,
